@@ -38,13 +38,13 @@ GROUPS = [
     Group("rdr/lp_scan_" + nm, "lp_scan.c", tus=["read_lp_mpq.c", "lp_mpq.c"], model=MODEL, defines=["WHICH=%d" % k], dfcc=False, unwind=(90 if k in (2, 3) else 26), kind="bounded", namebuf=16, timeout=1200,
           must_fail=["reach_end"] + ({9: ["reach_minus_inf"], 11: ["reach_line_with_leading_blank"]}.get(k, [])),
           bound="every line content of at most 4 arbitrary bytes with or without trailing newline, cursor anywhere, stale bytes after the terminator; line source at end of file; loops completely unwound; reader buffer capacity reduced to 16 (so that a scan that runs past the line terminator reaches the end of the buffer inside the bound)",
-          functions=fns, props=["C11", "C17"] + (["C10"] if k in (9, 12) else []), ignore=[(r"strcpy src/dst overlap", "CBMC's strcpy model demands different objects")],
+          functions=fns, props=["C11", "C17"] + (["C10"] if k in (9, 12, 13) else []), ignore=[(r"strcpy src/dst overlap", "CBMC's strcpy model demands different objects")],
           assumed=["rdr/lp_scan: sscanf(\"%s\"), strncasecmp are modelled by plain loops; the line source returns end of file (next_line: one line first); the number scanner mpq_EGlpNumReadStrXc is replaced by its contract 'consumes 0..strlen characters' (decided, bounded, in lpnum/anybytes)"])
     for k, nm, fns in [(0, "skip_blanks", ["ILLread_lp_state_skip_blanks"]), (1, "next_field", ["ILLread_lp_state_next_field_on_line", "next_field"]), (2, "next_var", ["ILLread_lp_state_next_var", "ILLis_lp_name_char"]),
                        (3, "has_colon", ["ILLread_lp_state_has_colon"]), (4, "colon", ["ILLread_lp_state_colon"]), (5, "sign", ["ILLread_lp_state_sign"]), (6, "sense", ["ILLtest_lp_state_sense"]),
                        (7, "prev_field", ["ILLread_lp_state_prev_field"]), (8, "next_is", ["ILLtest_lp_state_next_is"]),
                        (9, "bound_value", ["ILLread_lp_state_possible_bound_value", "ILLread_lp_state_value", "ILLget_value"]), (10, "value", ["ILLread_lp_state_value", "ILLget_value"]),
-                       (11, "next_line", ["ILLread_lp_state_next_line"]), (12, "keywords", ["ILLread_lp_state_next_var"])]
+                       (11, "next_line", ["ILLread_lp_state_next_line"]), (12, "keywords", ["ILLread_lp_state_next_var"]), (13, "free_word", ["ILLtest_lp_state_next_is"])]
 ] + [
     Group("rdr/mps_scan_" + nm, "mps_scan.c", tus=["read_mps_mpq.c"], model=MODEL, defines=["WHICH=%d" % k], dfcc=False, unwind=26, kind="bounded", namebuf=16, timeout=1200,
           bound="every line content of at most 4 arbitrary bytes with or without trailing newline, cursor anywhere, stale bytes after the terminator; loops completely unwound; reader buffer capacity reduced to 16",
